@@ -648,6 +648,14 @@ def quiet_main(mod, argv):
     import contextlib
     import io
     buf = io.StringIO()
+    # every judged call is preceded, within the same case, by a restricted call on the same files whose result is
+    # ignored: the answer must not depend on what an earlier call in the process asked for (and a case that does
+    # depend on it stays reproducible on replay)
+    try:
+        with contextlib.redirect_stdout(buf), contextlib.redirect_stderr(buf):
+            mod.main(['-r', '1', '-k', 'NoSuchClassForPriming'] + list(argv))
+    except BaseException:
+        pass
     try:
         with contextlib.redirect_stdout(buf), contextlib.redirect_stderr(buf):
             return mod.main(list(argv))
